@@ -17,12 +17,13 @@ func init() {
 			ma.ruleR8(c)
 			ma.ruleR8u(c)
 			ma.ruleR9(c)
+			ma.ruleR11(c, "bc") // the collected list an ownership release refers to is not corrupted by the filters
 			ma.ruleR7f(c)
 			ruleR9m(c)
 			ma.ruleR1dual(c)
 			ruleR2R3(c)
 		},
-		explanation: "Decides that ownership claims can only arise from what the plugin itself set, and that removal markers release ownership: every claim call is controlled by a presence test / range over the plugin's own value of the claimed item and by nothing derived from accumulated state; every claim is followed by a write of its own item (no claims on the side); for every removable kind a clear of the marked key exists whose execution depends only on the key being marked (not on it being set again), and which cannot run after a claim of the same kind; the marker functions agree on one 1-byte marker; claims are exclusive per slot and distinct items use distinct slots (no false conflicts between disjoint items). The key of every keyed claim is known not to be a removal marker where the claim runs (a claimed marker is a phantom item nothing releases).",
+		explanation: "Decides that ownership claims can only arise from what the plugin itself set, and that removal markers release ownership: every claim call is controlled by a presence test / range over the plugin's own value of the claimed item and by nothing derived from accumulated state; every claim is followed by a write of its own item (no claims on the side); for every removable kind a clear of the marked key exists whose execution depends only on the key being marked (not on it being set again), and which cannot run after a claim of the same kind; the marker functions agree on one 1-byte marker; claims are exclusive per slot and distinct items use distinct slots (no false conflicts between disjoint items). The key of every keyed claim is known not to be a removal marker where the claim runs (a claimed marker is a phantom item nothing releases). The filters leave the collected list an ownership release refers to intact.",
 		notDecided: []string{
 			"that a request with disjoint writes succeeds for reasons outside the merge (plugin errors, transport)",
 			"the behaviour of the generator on the result (C03/C13)",
